@@ -1,10 +1,13 @@
 """C07 — paginated methods yield every item of every page exactly once, in order (DESIGN §7.7)."""
 from __future__ import annotations
-import copy, json
+import base64, copy, json
 import apigen, genrun, libhost, rpc
 
 PKG = "acme.lib.v1"
-INT_KINDS = ["int32", "int64", "uint32", "sint32", "fixed32"]
+INT_KINDS = ["int32", "int64", "uint32", "uint64", "sint32", "sint64", "fixed32", "fixed64", "sfixed32", "sfixed64"]
+REP_KINDS = ["message", "message", "string", "map", "enum", "other_file", "int", "bytes", "double", "nested", "map_scalar", "map_intkey"]
+FILE_FREE_KINDS = ("string", "int", "other_file", "bytes", "double", "map_scalar")      # need nothing of lib.proto
+MAP_KINDS = ("map", "map_scalar", "map_intkey")
 
 
 def gen_shape(r: apigen.Rng, idx: int, conforming=None, force=None, first_kind=None):
@@ -15,23 +18,31 @@ def gen_shape(r: apigen.Rng, idx: int, conforming=None, force=None, first_kind=N
          "next_page_token": "str", "repeated": [], "extra_req": r.maybe(0.7), "lead": r.maybe(0.5)}
     nrep = r.randint(1, 3)
     for k in range(nrep):
-        s["repeated"].append(r.pick(["message", "message", "string", "map", "enum", "other_file", "int"]))
+        s["repeated"].append(r.pick(REP_KINDS))
     if r.maybe(0.3):
         s["size"] = ("max_results", r.pick(["int32", "Int32Value", "UInt32Value", "uint32"]))
     if r.maybe(0.15):
         s["size2"] = ("page_size" if s["size"][0] == "max_results" else "max_results", r.pick(INT_KINDS))
     if first_kind:
         s["repeated"][0] = first_kind
+    # legal variations the rule does not mention: proto3-optional token/size fields, a token inside a oneof, field numbers
+    # that do not follow the declaration order, the response declared in another file, a method signature (flattened call)
+    s["opt"] = [k for k in ("token", "size", "next") if r.maybe(0.15)]
+    s["oneof_token"] = r.maybe(0.1) and "token" not in s["opt"]
+    s["renumber"] = r.maybe(0.25)
+    s["resp_other_file"] = r.maybe(0.2) and all(k in FILE_FREE_KINDS for k in s["repeated"])
+    s["sig"] = bool(s["extra_req"]) and r.maybe(0.4)
     if force:
         ok = False
     if not ok:
         kind = force or r.pick(["no_token", "token_type", "no_size", "size_type", "no_next", "next_type", "no_repeated",
-                       "wrapper_wrong", "repeated_token", "mistyped_max_good_page", "good_max_mistyped_page", "repeated_next"])
+                       "wrapper_wrong", "repeated_token", "mistyped_max_good_page", "good_max_mistyped_page", "repeated_next",
+                       "page_size_wrapper"])
         s["mutation"] = kind
         if kind == "no_token": s["page_token"] = None
         elif kind == "token_type": s["page_token"] = r.pick(["int32", "bytes", "bool"])
         elif kind == "no_size": s["size"] = None; s["size2"] = None
-        elif kind == "size_type": s["size"] = (s["size"][0] if s["size"] else "page_size", r.pick(["string", "bool", "double"])); s["size2"] = None
+        elif kind == "size_type": s["size"] = (s["size"][0] if s["size"] else "page_size", r.pick(["string", "bool", "double", "float", "bytes", "enum"])); s["size2"] = None
         elif kind == "no_next": s["next_page_token"] = None
         elif kind == "next_type": s["next_page_token"] = r.pick(["int32", "bytes"])
         elif kind == "no_repeated": s["repeated"] = []
@@ -40,6 +51,7 @@ def gen_shape(r: apigen.Rng, idx: int, conforming=None, force=None, first_kind=N
         elif kind == "repeated_next": s["next_page_token"] = "repeated_str"
         elif kind == "mistyped_max_good_page": s["size"] = ("max_results", "string"); s["size2"] = ("page_size", "int32")
         elif kind == "good_max_mistyped_page": s["size"] = ("max_results", "int32"); s["size2"] = ("page_size", "string")
+        elif kind == "page_size_wrapper": s["size"] = ("page_size", r.pick(["Int32Value", "UInt32Value"])); s["size2"] = None
     return s
 
 
@@ -51,20 +63,26 @@ def statement_paged(s):
     if s["page_token"] != "str" or s["next_page_token"] != "str" or not s["repeated"]:
         return False
     sizes = [x for x in (s["size"], s["size2"]) if x]
+    if any(n == "page_size" and t in ("Int32Value", "UInt32Value") for n, t in sizes) and not any(
+            t in INT_KINDS for n, t in sizes):
+        return None       # "an integer page_size (or legacy max_results, integer or Int32Value/UInt32Value)": a WRAPPER page_size is
+                          # not clearly inside or outside the rule; the generator accepts it and the pager works. No opinion (T2/T3 only).
     def good(x):
         n, t = x
         if n == "page_size":
-            return t in apigen.T and t not in ("string", "bool", "double", "float", "bytes")
-        return t in ("Int32Value", "UInt32Value") or (t in apigen.T and t not in ("string", "bool", "double", "float", "bytes"))
+            return t in INT_KINDS
+        return t in ("Int32Value", "UInt32Value") or t in INT_KINDS
     return any(good(x) for x in sizes)
 
 
-def add_size(msg, x):
+def add_size(msg, x, color=None, optional=False):
     n, t = x
     if t in WRAPPERS:
         msg.field(n, "message", type_name=f".google.protobuf.{t}")
+    elif t == "enum":
+        msg.field(n, "enum", type_name=color)
     else:
-        msg.field(n, t)
+        msg.field(n, t, optional=optional)
 
 
 def build_api(shapes):
@@ -75,29 +93,47 @@ def build_api(shapes):
     book = f.msg("Book"); book.field("name"); book.field("pages", "int32")
     svc = f.service("Library")
     for s in shapes:
+        opt = s.get("opt", [])
         rq = f.msg(s["name"] + "Request")
         if s["extra_req"]:
             rq.field("parent"); rq.field("filter")
-        if s["page_token"] == "str": rq.field("page_token")
+        if s.get("oneof_token"):
+            rq.field("start_after", oneof="cursor")
+        tok_kw = {"oneof": "cursor"} if s.get("oneof_token") else {"optional": "token" in opt}
+        if s["page_token"] == "str": rq.field("page_token", **tok_kw)
         elif s["page_token"] == "repeated_str": rq.field("page_token", repeated=True)
         elif s["page_token"]: rq.field("page_token", s["page_token"])
         for x in (s["size"], s["size2"]):
-            if x: add_size(rq, x)
-        rs = f.msg(s["name"] + "Response")
+            if x: add_size(rq, x, color, "size" in opt)
+        rs = (f2 if s.get("resp_other_file") else f).msg(s["name"] + "Response")
+        decl = []      # (declare) thunks in declaration order; numbers descending when `renumber`
         if s["lead"]:
-            rs.field("total", "int32")
+            decl.append(lambda n: rs.field("total", "int32", number=n))
         for k, kind in enumerate(s["repeated"]):
             fn = f"results{k}"
-            if kind == "message": rs.field(fn, "message", repeated=True, type_name=book)
-            elif kind == "string": rs.field(fn, "string", repeated=True)
-            elif kind == "int": rs.field(fn, "int64", repeated=True)
-            elif kind == "enum": rs.field(fn, "enum", repeated=True, type_name=color)
-            elif kind == "other_file": rs.field(fn, "message", repeated=True, type_name=".acme.lib.v1.SharedItem")
-            elif kind == "map": rs.map_field(fn, "string", "message", vtype_name=book)
-        if s["next_page_token"] == "str": rs.field("next_page_token")
-        elif s["next_page_token"] == "repeated_str": rs.field("next_page_token", repeated=True)
-        elif s["next_page_token"]: rs.field("next_page_token", s["next_page_token"])
-        svc.method(s["name"], rq, rs, http=("get", "/v1/lists/" + s["name"].lower()))     # every request field travels in the query over REST
+            if kind == "message": decl.append(lambda n, fn=fn: rs.field(fn, "message", number=n, repeated=True, type_name=book))
+            elif kind == "string": decl.append(lambda n, fn=fn: rs.field(fn, "string", number=n, repeated=True))
+            elif kind == "int": decl.append(lambda n, fn=fn: rs.field(fn, "int64", number=n, repeated=True))
+            elif kind == "bytes": decl.append(lambda n, fn=fn: rs.field(fn, "bytes", number=n, repeated=True))
+            elif kind == "double": decl.append(lambda n, fn=fn: rs.field(fn, "double", number=n, repeated=True))
+            elif kind == "enum": decl.append(lambda n, fn=fn: rs.field(fn, "enum", number=n, repeated=True, type_name=color))
+            elif kind == "other_file": decl.append(lambda n, fn=fn: rs.field(fn, "message", number=n, repeated=True, type_name=".acme.lib.v1.SharedItem"))
+            elif kind == "nested":
+                def mk(n, fn=fn, k=k):
+                    row = rs.nested(f"Row{k}"); row.field("name"); row.field("pages", "int32")
+                    rs.field(fn, "message", number=n, repeated=True, type_name=row)
+                decl.append(mk)
+            elif kind == "map": decl.append(lambda n, fn=fn: rs.map_field(fn, "string", "message", number=n, vtype_name=book))
+            elif kind == "map_scalar": decl.append(lambda n, fn=fn: rs.map_field(fn, "string", "int32", number=n))
+            elif kind == "map_intkey": decl.append(lambda n, fn=fn: rs.map_field(fn, "int32", "message", number=n, vtype_name=book))
+        if s["next_page_token"] == "str": decl.append(lambda n: rs.field("next_page_token", number=n, optional="next" in opt))
+        elif s["next_page_token"] == "repeated_str": decl.append(lambda n: rs.field("next_page_token", number=n, repeated=True))
+        elif s["next_page_token"]: decl.append(lambda n: rs.field("next_page_token", s["next_page_token"], number=n))
+        for j, th in enumerate(decl):
+            th(len(decl) - j if s.get("renumber") else j + 1)
+        st = s.get("stream")
+        svc.method(s["name"], rq, rs, http=None if st else ("get", "/v1/lists/" + s["name"].lower()),     # every request field travels in the query over REST
+                   sigs=["parent,filter"] if s.get("sig") else (), ss=st in ("ss", "bidi"), cs=st in ("cs", "bidi"))
     return [f2, f]
 
 
@@ -126,73 +162,163 @@ def gen_history(r, item_kind):
 
 
 def item_json(kind, i):
-    if kind in ("message",): return {"name": f"b{i}", "pages": i}
+    if kind in ("message", "nested"): return {"name": f"b{i}", "pages": i}
     if kind == "other_file": return {"id": f"s{i}", "rank": i}
     if kind == "string": return f"v{i}"
     if kind == "int": return str(i)
+    if kind == "bytes": return base64.b64encode(f"v{i}".encode()).decode()
+    if kind == "double": return i + 0.5
     if kind == "enum": return ["RED", "BLUE"][i % 2]
     raise ValueError(kind)
 
 
 def page_json(s, page, field0, kind):
     d = {}
-    if kind == "map":
-        d[field0] = {f"k{i}": {"name": f"b{i}", "pages": i} for i in page["ids"]}
+    if kind in ("map", "map_intkey"):
+        d[field0] = {(f"k{i}" if kind == "map" else str(i)): {"name": f"b{i}", "pages": i} for i in page["ids"]}
+    elif kind == "map_scalar":
+        d[field0] = {f"k{i}": i for i in page["ids"]}
     else:
         d[field0] = [item_json(kind, i) for i in page["ids"]]
     if page["token"]:
         d["next_page_token"] = page["token"]
     if len(s["repeated"]) > 1 and s["repeated"][1] == "string":
         d["results1"] = ["decoy"]
+    if s.get("lead"):
+        d["total"] = 1000 + len(page["ids"])
     return d
 
 
 def item_id(kind, canon, codec):
     """recover the scripted id from an item yielded by the pager"""
-    if kind == "map":
-        v = codec.decode("acme.lib.v1.Book", canon["value"]["b64"])
-        return int(v.get("pages", 0))
+    if kind in MAP_KINDS:
+        v = canon["value"]
+        if v.get("kind") == "scalar":
+            return int(v["value"])
+        return int(codec.decode("acme.lib.v1.Book", v["b64"]).get("pages", 0))
     if kind in ("message",):
         return int(codec.decode("acme.lib.v1.Book", canon["b64"]).get("pages", 0))
+    if kind == "nested":
+        return int(codec.decode(canon["type"], canon["b64"]).get("pages", 0))
     if kind == "other_file":
         return int(codec.decode("acme.lib.v1.SharedItem", canon["b64"]).get("rank", 0))
     if kind == "string": return int(canon["value"][1:])
     if kind == "int": return int(canon["value"])
+    if kind == "bytes": return int(base64.b64decode(canon["b64"])[1:])
+    if kind == "double": return int(canon["value"] - 0.5)
     if kind == "enum": return canon["value"]
     raise ValueError(kind)
 
 
-def run_api(ctx, r, shapes, label):
+def enum_name(g):
+    return {1: "RED", 2: "BLUE"}.get(g, g)
+
+
+def gen_program(r, hist, long=False):
+    """a program over ONE pager: create `pages` generators / item iterators, advance any of them, read an attribute"""
+    prog, nit, ngen = [], 0, 0
+    total = sum(len(p["ids"]) for p in hist)
+    for _ in range(r.randint(4, 18 if long else 12)):
+        x = r.random()
+        if x < 0.16 or (nit == 0 and ngen == 0 and x < 0.6):
+            prog.append(["iter"]); nit += 1
+        elif x < 0.26 or (nit == 0 and ngen == 0):
+            prog.append(["pages"]); ngen += 1
+        elif x < 0.36:
+            prog.append(["attr"])
+        elif ngen and (x < 0.56 or nit == 0):
+            prog.append(["nextpage", r.randrange(ngen)])
+        else:
+            prog.append(["next", r.randrange(nit)])
+    if r.maybe(0.5):          # consume one iterator to the end (and beyond), then look at the pager and iterate it once more
+        if nit == 0:
+            prog.append(["iter"]); nit += 1
+        i = r.randrange(nit)
+        prog += [["next", i]] * (total + 2) + [["attr"], ["iter"]] + [["next", nit]] * r.randint(1, 4)
+    return prog
+
+
+# the program of the non-vacuity example of Props/C07.lean (two interleaved iterators + a `pages` generator)
+LEAN_EXAMPLE_HISTORY = [{"ids": [1, 2], "token": "a"}, {"ids": [], "token": "b"}, {"ids": [3], "token": "c"}, {"ids": [4], "token": ""},
+                        {"ids": [99], "token": ""}]
+LEAN_EXAMPLE_PROGRAM = [["iter"], ["next", 0], ["attr"], ["iter"], ["next", 1], ["next", 0], ["next", 0], ["attr"], ["next", 1], ["next", 1],
+                        ["pages"], ["nextpage", 0], ["nextpage", 0], ["nextpage", 0], ["next", 0], ["next", 0], ["attr"]]
+
+
+RETRY = {"exceptions": ["ServiceUnavailable"], "initial": 0.01, "maximum": 0.02, "multiplier": 1.0, "deadline": 30.0}
+METADATA = [["x-verif", "1"], ["x-verif-b", "b1"], ["x-verif-b", "b2"]]
+
+
+def live_pages(hist):
+    live = []
+    for p in hist:
+        live.append(p)
+        if not p["token"]:
+            break
+    return live
+
+
+def kind_of(m):
+    return {"void": bool(m.void), "lro": bool(m.lro), "ext": bool(m.extended_lro), "cs": bool(m.client_streaming), "ss": bool(m.server_streaming)}
+
+
+def out_kind(m, asy):
+    """what Method.client_output(_async) announces, as the model's OutKind"""
+    co = m.client_output_async if asy else m.client_output
+    n = co.ident.name if hasattr(co, "ident") else None
+    if m.void: return "none"
+    if n in ("Operation", "AsyncOperation") and m.lro: return "operation"
+    if n == "ExtendedOperation": return "ext_operation"
+    if n == m.name + ("AsyncPager" if asy else "Pager"): return "pager"
+    if co is m.output: return "message"
+    return "other:" + str(n)
+
+
+def run_api(ctx, r, shapes, label, programs=None):
     files = build_api(shapes)
     req = apigen.request(files, "transport=grpc+rest,autogen-snippets=false")
     api, _ = genrun.build_api(req)
     svc = api.services[f"{PKG}.Library"]
     loc = rpc.py_locations(api, svc)
     codec = rpc.Codec(files)
+    import gapic.utils as gu
     # ---- T2 + classification oracle
     ops = []
     for s in shapes:
         m = svc.methods[s["name"]]
         ops.append({"op": "c07.classify", "input": msg_json(m.input), "output": msg_json(m.output)})
     model = ctx.driver.ask(ops)
-    paged = []
-    for s, mo in zip(shapes, model):
+    wops = [dict(op="c07.wrap", paged=mo.get("field") is not None, **kind_of(svc.methods[s["name"]])) for s, mo in zip(shapes, model)]
+    wmodel = ctx.driver.ask(wops)
+    paged, unary = [], []
+    for s, mo, wm in zip(shapes, model, wmodel):
         m = svc.methods[s["name"]]
         impl = m.paged_result_field.name if m.paged_result_field else None
         ctx.case({"shape": {k: v for k, v in s.items() if k != "name"}, "paged": impl}, distinct_key=["shape", json.dumps(s, sort_keys=True)])
         ctx.count("classification", f"{'paged' if impl else 'plain'}:{s.get('mutation', 'conforming')}")
+        for fl in ("opt", "oneof_token", "renumber", "resp_other_file", "sig", "stream"):
+            if s.get(fl):
+                ctx.count("shape_variation", fl)
         ctx.traces += 1
         if mo.get("field") != impl:
             ctx.disagree("T2:c07.paged_result_field", f"model {mo.get('field')} vs impl {impl}", {"shape": s})
+        for asy in (False, True):        # Method.client_output / client_output_async vs the model's clientOutput
+            got = out_kind(m, asy)
+            if got != wm["client_output"]:
+                ctx.disagree("T2:c07.client_output", f"{m.name}: model {wm['client_output']} vs impl {got} (async={asy})", {"shape": s})
         want = statement_paged(s)
-        if want != bool(impl):
+        if want is None:
+            ctx.count("classification", "no-opinion:" + s.get("mutation", "?"))
+        elif want != bool(impl):
             key = {"repeated_token": "repeated-page-token-accepted", "repeated_next": "repeated-next-page-token-accepted",
                    "mistyped_max_good_page": "mistyped-max-results-hides-page-size"}.get(s.get("mutation"), "classification")
             ctx.fail(key, f"statement says paged={want}, generator exposes paged_result_field={impl}", {"shape": s})
-        if impl and want and impl != "results0":
+        if impl and want is not False and impl != "results0":
             ctx.fail("wrong-item-field", f"item field {impl} is not the first repeated field", {"shape": s})
-        if impl and want:
-            paged.append(s)
+        if not s.get("stream"):
+            unary.append((s, wm, want))
+            if impl and want is not False:
+                paged.append(s)
     # ---- T3
     res, err = genrun.try_generate(req)
     if err:
@@ -209,70 +335,120 @@ def run_api(ctx, r, shapes, label):
             kind = s["repeated"][0]
             for h in range(ctx.n(2, 6)):
                 hist = gen_history(r, kind)
+                if programs and h == 0:
+                    hist = copy.deepcopy(programs[0])
                 reqd = {}
                 if s["extra_req"]:
                     reqd = {"parent": "shelves/s1", "filter": "a=b"}
                 if r.maybe(0.3):
                     reqd["page_token"] = "start"
                 path = f"/{PKG}.Library/{s['name']}"
-                call = {"method": m.client_method_name if hasattr(m, "client_method_name") else None,
-                        "mode": r.pick(["request-instance", "request-dict"]),
+                modes = ["request-instance", "request-dict"]
+                if s.get("sig") and "page_token" not in reqd:
+                    modes.append("kwargs")
+                if not reqd:
+                    modes.append("request-none")
+                live = live_pages(hist)
+                script = [{"replies": [codec.encode_b64(m.output.ident.proto, page_json(s, p, "results0", kind))]} for p in hist]
+                kwargs = {"timeout": 7.0, "metadata": METADATA}
+                fail_at = None
+                if len(live) >= 2 and r.maybe(0.4):
+                    # call options: the caller's retry must reach the fetches of the PAGER: one transient error before page `fail_at`
+                    fail_at = r.randint(1, len(live) - 1)
+                    script.insert(fail_at, {"code": "UNAVAILABLE", "tag": "fail"})
+                    kwargs["retry"] = dict(RETRY)
+                call = {"method": gu.to_snake_case(m.client_method_name),
+                        "mode": r.pick(modes),
                         "py_request": rpc.py_type(m.input),
                         "request_b64": codec.encode_b64(m.input.ident.proto, reqd),
+                        "kwargs": [["parent", "parent"], ["filter", "filter"]],
                         "consume": "pager",
                         "again_same_args": True,      # programs: the caller lists twice with the same request object
-                        "call_kwargs": {"timeout": 7.0, "metadata": [["x-verif", "1"]]},
-                        "script": {path: [{"replies": [codec.encode_b64(m.output.ident.proto, page_json(s, p, "results0", kind))]} for p in hist]}}
-                plans.append((s, m, kind, hist, reqd, call))
-        import gapic.utils as gu
+                        "call_kwargs": kwargs,
+                        "script": {path: script}}
+                prog = copy.deepcopy(programs[1]) if (programs and h == 0) else gen_program(r, hist, long=ctx.n(0, 1) == 1)
+                plans.append((s, m, kind, hist, reqd, call, fail_at, prog))
         for asy in (False, True):
             calls = []
-            for (s, m, kind, hist, reqd, call) in plans:
+            for (s, m, kind, hist, reqd, call, fail_at, prog) in plans:
                 c = copy.deepcopy(call)
-                c["method"] = gu.to_snake_case(m.client_method_name)
+                if "retry" in c["call_kwargs"]:
+                    c["call_kwargs"]["retry"]["async"] = asy
                 calls.append(c)
-            sessions.append({"op": "grpc_session", "client": loc["async_client" if asy else "client"],
+            sessions.append({"op": "grpc_session", "client": loc["async_client" if asy else "client"], "trap_sleep": True,
                              "transport": loc["grpc_asyncio" if asy else "grpc"], "async": asy, "calls": calls})
         # the same listings through the REST transport (sync client): pages are JSON bodies, tokens travel in the query
         rest_calls = []
-        for (s, m, kind, hist, reqd, call) in plans:
+        for (s, m, kind, hist, reqd, call, fail_at, prog) in plans:
             c = {k: v for k, v in call.items() if k not in ("script", "again_same_args")}
-            c["method"] = gu.to_snake_case(m.client_method_name)
+            c["call_kwargs"] = {"timeout": 7.0, "metadata": [["x-verif", "1"]]}
             c["script"] = [{"status": 200, "body": json.dumps(page_json(s, p, "results0", kind))} for p in hist]
             rest_calls.append(c)
         sessions.append({"op": "rest_session", "client": loc["client"], "transport": loc["rest"], "calls": rest_calls})
-        out = libhost.run(root, sessions, timeout=600)
+        # pagers as objects (programs) + what every unary method returns (exposure), sync and asyncio
+        obj_calls = []
+        for (s, m, kind, hist, reqd, call, fail_at, prog) in plans:
+            c = {k: v for k, v in call.items() if k not in ("again_same_args", "consume")}
+            c["call_kwargs"] = {"timeout": 7.0, "metadata": METADATA}
+            c["mode"] = "request-instance"
+            c["script"] = {f"/{PKG}.Library/{s['name']}": [{"replies": [codec.encode_b64(m.output.ident.proto, page_json(s, p, "results0", kind))]} for p in hist]}
+            c["program"] = prog
+            obj_calls.append(("program", s, m, kind, hist, reqd, prog, c))
+        for (s, wm, want) in unary:
+            m = svc.methods[s["name"]]
+            c = {"method": gu.to_snake_case(m.client_method_name), "mode": "request-instance", "py_request": rpc.py_type(m.input),
+                 "request_b64": codec.encode_b64(m.input.ident.proto, {}), "program": [],
+                 "script": {f"/{PKG}.Library/{s['name']}": [{"replies": [""]}]}}
+            obj_calls.append(("exposure", s, m, wm, want, None, None, c))
+        stream_calls = []
+        for s, mo, wm in zip(shapes, model, wmodel):
+            if s.get("stream") and mo.get("field") is not None:
+                m = svc.methods[s["name"]]
+                c = {"method": gu.to_snake_case(m.client_method_name), "mode": "request-instance", "py_request": rpc.py_type(m.input),
+                     "request_b64": codec.encode_b64(m.input.ident.proto, {}), "program": [["iter"], ["next", 0]],
+                     "script": {f"/{PKG}.Library/{s['name']}": [{"replies": [codec.encode_b64(m.output.ident.proto, {"next_page_token": "t"})]}]}}
+                if m.client_streaming:
+                    c["stream_requests"] = [codec.encode_b64(m.input.ident.proto, {})]
+                stream_calls.append((s, m, wm, c))
+        for asy in (False, True):
+            sessions.append({"op": "c07_session", "client": loc["async_client" if asy else "client"], "async": asy,
+                             "transport": loc["grpc_asyncio" if asy else "grpc"],
+                             "calls": [x[-1] for x in obj_calls] + ([x[-1] for x in stream_calls] if not asy else [])})
+        out = libhost.run(root, sessions, timeout=900)
         rest_out = out[2] if len(out) > 2 else None
+        obj_out = out[3:5]
         out = out[:2]
         mops = [{"op": "c07.run", "token0": reqd.get("page_token", ""),
                  "pages": [{"items": [i if isinstance(i, int) else 0 for i in p["ids"]], "token": p["token"]} for p in hist]}
-                for (s, m, kind, hist, reqd, call) in plans]
+                for (s, m, kind, hist, reqd, call, fail_at, prog) in plans]
         mres = ctx.driver.ask(mops)
         for asy, sess in zip((False, True), out):
             if "calls" not in sess:
                 ctx.fail("session-failed", f"T3 session failed ({'async' if asy else 'sync'}): {str(sess)[-400:]}", {"shapes": shapes})
                 continue
-            for (s, m, kind, hist, reqd, call), res_, mo in zip(plans, sess["calls"], mres):
-                payload = {"shape": s, "history": hist, "request": reqd, "async": asy}
+            for (s, m, kind, hist, reqd, call, fail_at, prog), res_, mo in zip(plans, sess["calls"], mres):
+                payload = {"shape": s, "history": hist, "request": reqd, "async": asy, "mode": call["mode"], "fail_at": fail_at}
                 ctx.case({"history": [(len(p["ids"]), bool(p["token"])) for p in hist], "item_kind": kind, "async": asy},
                          distinct_key=["hist", s["name"], json.dumps(hist), asy])
-                ctx.count("history_pages", len(hist)); ctx.count("item_kind", kind)
+                ctx.count("history_pages", len(hist)); ctx.count("item_kind", kind); ctx.count("call_mode", call["mode"])
+                if fail_at is not None:
+                    ctx.count("program", "transient error on a page the pager fetches, caller passed retry=")
                 if "ok" not in res_:
-                    ctx.fail("pager-raised", f"{m.name}: {res_.get('raised')}: {res_.get('msg')}", payload)
+                    if fail_at is not None and res_.get("raised") == "ServiceUnavailable":
+                        ctx.fail("call-options-changed", f"{m.name}: the caller's retry= did not reach the fetch of page {fail_at + 1}: "
+                                 f"{res_.get('raised')}: {res_.get('msg')}", payload)
+                    else:
+                        ctx.fail("pager-raised", f"{m.name}: {res_.get('raised')}: {res_.get('msg')}", payload)
                     continue
                 ok = res_["ok"]
                 # expected by the statement
-                live = []
-                for p in hist:
-                    live.append(p)
-                    if not p["token"]:
-                        break
+                live = live_pages(hist)
                 want_ids = [i for p in live for i in p["ids"]]
                 got = [item_id(kind, it, codec) for it in ok["items"]]
                 if kind == "enum":
                     want_cmp = [["RED", "BLUE"][i % 2] for i in want_ids]
-                    got_cmp = [{1: "RED", 2: "BLUE"}.get(g, g) for g in got]
-                elif kind == "map":
+                    got_cmp = [enum_name(g) for g in got]
+                elif kind in MAP_KINDS:
                     # order inside one page's map is the map's own; compare page by page as sets, pages in order
                     want_cmp, got_cmp, k = [], [], 0
                     for p in live:
@@ -282,20 +458,23 @@ def run_api(ctx, r, shapes, label):
                     want_cmp, got_cmp = want_ids, got
                 if want_cmp != got_cmp:
                     ctx.fail("items", f"{m.name}: yielded {got} expected {want_ids}", payload)
-                srv = [x for x in res_["server"] if x["path"].endswith("/" + s["name"])]
-                if len(srv) != len(live):
-                    ctx.fail("call-count", f"{m.name}: {len(srv)} server calls for {len(live)} pages", payload)
+                srv_all = [x for x in res_["server"] if x["path"].endswith("/" + s["name"])]
+                srv = [x for x in srv_all if x.get("behaviour") != "fail"]
+                if len(srv) != len(live) or len(srv_all) - len(srv) != (0 if fail_at is None else 1):
+                    ctx.fail("call-count", f"{m.name}: {len(srv)} answered (+{len(srv_all) - len(srv)} failed) server calls for {len(live)} pages", payload)
                 toks = []
-                for k, rec in enumerate(srv):
+                for k, rec in enumerate(srv_all):
                     d = codec.decode(m.input.ident.proto, rec["requests"][0]) if rec["requests"] else {}
-                    toks.append(d.get("page_token", ""))
+                    if rec.get("behaviour") != "fail":
+                        toks.append(d.get("page_token", ""))
                     rest = {kk: vv for kk, vv in d.items() if kk != "page_token"}
                     want_rest = {kk: vv for kk, vv in reqd.items() if kk != "page_token"}
                     if rest != want_rest:
                         ctx.fail("request-fields-changed", f"{m.name}: request {k} carries {rest}, caller gave {want_rest}", payload)
-                    md = dict((a, b) for a, b in rec["metadata"])
-                    if md.get("x-verif") != "1":
-                        ctx.fail("call-options-changed", f"{m.name}: request {k} lost caller metadata", payload)
+                    for key_ in ("x-verif", "x-verif-b"):
+                        if [b for a, b in rec["metadata"] if a == key_] != [b for a, b in METADATA if a == key_]:
+                            ctx.fail("call-options-changed", f"{m.name}: request {k} carries metadata {key_}={[b for a, b in rec['metadata'] if a == key_]}, "
+                                     f"caller gave {[b for a, b in METADATA if a == key_]}", payload)
                     if not (0 < rec["time_remaining"] <= 7.5):
                         ctx.fail("call-options-changed", f"{m.name}: request {k} deadline {rec['time_remaining']} (timeout=7)", payload)
                 want_toks = [reqd.get("page_token", "")] + [p["token"] for p in live[:-1]]
@@ -303,6 +482,11 @@ def run_api(ctx, r, shapes, label):
                     ctx.fail("tokens", f"{m.name}: tokens sent {toks} expected {want_toks}", payload)
                 if ok["attrs"].get("next_page_token") != live[-1]["token"]:
                     ctx.fail("attrs", f"{m.name}: pager.next_page_token={ok['attrs'].get('next_page_token')!r} after iteration, last page token {live[-1]['token']!r}", payload)
+                last = ok.get("last") or {}
+                if last.get("b64") is not None and codec.decode(m.output.ident.proto, last["b64"]) != codec.normal(m.output.ident.proto, page_json(s, live[-1], "results0", kind)):
+                    ctx.fail("attrs", f"{m.name}: the response the pager exposes after iteration is not the last page fetched", payload)
+                if ok.get("pytype") != m.name + ("AsyncPager" if asy else "Pager"):
+                    ctx.fail("exposure", f"{m.name}: the client returned a {ok.get('pytype')}", payload)
                 # a second listing with the very same argument objects is a listing like the first one
                 ag = res_.get("again")
                 if ag is not None:
@@ -311,7 +495,7 @@ def run_api(ctx, r, shapes, label):
                         ctx.fail("second-listing-raised", f"{m.name}: second listing with the same arguments: {ag.get('raised')}: {ag.get('msg')}", payload)
                     else:
                         got2 = [item_id(kind, it, codec) for it in ag["ok"]["items"]]
-                        srv2 = [x for x in ag["server"] if x["path"].endswith("/" + s["name"])]
+                        srv2 = [x for x in ag["server"] if x["path"].endswith("/" + s["name"]) and x.get("behaviour") != "fail"]
                         toks2 = [(codec.decode(m.input.ident.proto, rec["requests"][0]) if rec["requests"] else {}).get("page_token", "") for rec in srv2]
                         if sorted(map(str, got2)) != sorted(map(str, got)) or toks2 != toks:
                             ctx.fail("second-listing-differs", f"{m.name}: listing again with the same request object yielded {got2} (tokens sent {toks2}); "
@@ -320,33 +504,31 @@ def run_api(ctx, r, shapes, label):
                 ctx.traces += 1
                 if kind not in ("enum",):
                     m_items = mo["items"]
-                    g_items = got if kind != "map" else None
+                    g_items = got if kind not in MAP_KINDS else None
                     if g_items is not None and m_items != g_items:
                         ctx.disagree("T3:c07.items", f"model {m_items} vs impl {g_items}", payload)
                 if mo["request_tokens"] != toks:
                     ctx.disagree("T3:c07.tokens", f"model {mo['request_tokens']} vs impl {toks}", payload)
+        # ---- pagers as objects: programs (small-step model) + exposure
+        check_objects(ctx, codec, svc, obj_calls, stream_calls, obj_out, shapes)
         # ---- REST: items, call count, tokens and the other request fields, against the statement
         if rest_out is not None:
             import urllib.parse
             if "calls" not in rest_out:
                 ctx.fail("session-failed", f"T3 session failed (rest): {str(rest_out)[-400:]}", {"shapes": shapes})
             else:
-                for (s, m, kind, hist, reqd, call), res_ in zip(plans, rest_out["calls"]):
-                    payload = {"shape": s, "history": hist, "request": reqd, "async": False, "transport": "rest"}
+                for (s, m, kind, hist, reqd, call, fail_at, prog), res_ in zip(plans, rest_out["calls"]):
+                    payload = {"shape": s, "history": hist, "request": reqd, "async": False, "transport": "rest", "mode": call["mode"]}
                     ctx.count("transport", "rest")
                     if "ok" not in res_:
                         ctx.fail("pager-raised", f"{m.name} (rest): {res_.get('raised')}: {res_.get('msg')}", payload)
                         continue
-                    live = []
-                    for p in hist:
-                        live.append(p)
-                        if not p["token"]:
-                            break
+                    live = live_pages(hist)
                     want_ids = [i for p in live for i in p["ids"]]
                     got = [item_id(kind, it, codec) for it in res_["ok"]["items"]]
                     if kind == "enum":
-                        ok_items = [{1: "RED", 2: "BLUE"}.get(g, g) for g in got] == [["RED", "BLUE"][i % 2] for i in want_ids]
-                    elif kind == "map":
+                        ok_items = [enum_name(g) for g in got] == [["RED", "BLUE"][i % 2] for i in want_ids]
+                    elif kind in MAP_KINDS:
                         ok_items = sorted(got) == sorted(want_ids)
                     else:
                         ok_items = got == want_ids
@@ -372,20 +554,288 @@ def run_api(ctx, r, shapes, label):
         genrun.cleanup(root)
 
 
+def decode_obs(obs, kind, codec, m):
+    """an observation of the real pager in the model's vocabulary (ids instead of items)"""
+    if isinstance(obs, str):
+        return obs
+    if "item" in obs:
+        i = item_id(kind, obs["item"], codec)
+        return {"item": None if kind in MAP_KINDS else (enum_name(i) if kind == "enum" else i)}
+    if "tok" in obs:
+        return {"tok": obs["tok"]}
+    if "page" in obs:
+        d = codec.decode(m.output.ident.proto, obs["page"]["b64"])
+        v = d.get("results0", [])
+        return {"page": {"n": len(v), "token": d.get("next_page_token", "")}}
+    return obs
+
+
+def model_obs(obs, kind):
+    if isinstance(obs, str):
+        return obs
+    if "item" in obs:
+        i = obs["item"]
+        return {"item": None if kind in MAP_KINDS else (["RED", "BLUE"][i % 2] if kind == "enum" else i)}
+    if "page" in obs:
+        return {"page": {"n": len(obs["page"]["items"]), "token": obs["page"]["token"]}}
+    return obs
+
+
+def check_objects(ctx, codec, svc, obj_calls, stream_calls, obj_out, shapes):
+    progs = [x for x in obj_calls if x[0] == "program"]
+    mres = ctx.driver.ask([{"op": "c07.program", "token0": reqd.get("page_token", ""), "ops": prog,
+                            "pages": [{"items": p["ids"], "token": p["token"]} for p in hist]}
+                           for (_, s, m, kind, hist, reqd, prog, c) in progs]) if progs else []
+    mres = iter(mres)
+    models = [next(mres) if x[0] == "program" else None for x in obj_calls]
+    for asy, sess in zip((False, True), obj_out):
+        if "calls" not in sess:
+            ctx.fail("session-failed", f"T3 object session failed ({'async' if asy else 'sync'}): {str(sess)[-400:]}", {"shapes": shapes})
+            continue
+        results = sess["calls"]
+        for (what, s, m, kind, hist, reqd, prog, c), res_, mo in zip(obj_calls, results, models):
+            if what == "exposure":
+                wm, want = kind, hist
+                payload = {"shape": s, "async": asy, "exposure": True}
+                ctx.traces += 1
+                if "raised" in res_:
+                    ctx.fail("method-raised", f"{m.name}: calling the method raised {res_['raised']}: {res_.get('msg')}", payload)
+                    continue
+                is_pager = bool(res_.get("is_pager")) and res_.get("pytype") == m.name + ("AsyncPager" if asy else "Pager")
+                ctx.count("exposure", ("pager" if is_pager else "plain:" + str(res_.get("pytype") == m.output.name)))
+                if want is not None and is_pager != want:
+                    key = "mistyped-max-results-hides-page-size" if s.get("mutation") == "mistyped_max_good_page" else "exposure"
+                    ctx.fail(key, f"{m.name}: statement says paginated={want}; the {'asyncio ' if asy else ''}client returned a {res_.get('pytype')}", payload)
+                if not is_pager and res_.get("pytype") != m.output.name:
+                    ctx.fail("exposure", f"{m.name}: not paginated, but the client returned a {res_.get('pytype')} instead of the response", payload)
+                mw = wm["wrap_async" if asy else "wrap_sync"]
+                if (mw == "pager") != is_pager:
+                    ctx.disagree("T3:c07.wrap", f"{m.name}: model wraps as {mw}, the client returned a {res_.get('pytype')}", payload)
+                continue
+            payload = {"shape": s, "history": hist, "request": reqd, "async": asy, "program": prog}
+            ctx.case({"program": prog, "history": [(len(p["ids"]), bool(p["token"])) for p in hist], "async": asy},
+                     distinct_key=["prog", json.dumps(prog), json.dumps(hist), asy])
+            ctx.count("program", "generator program on one pager (%s)" % ("asyncio" if asy else "sync"))
+            ctx.count("program_ops", len(prog))
+            if "raised" in res_:
+                ctx.fail("pager-raised", f"{m.name}: {res_['raised']}: {res_.get('msg')}", payload)
+                continue
+            steps = res_["steps"]
+            bad = [st for st in steps if isinstance(st["obs"], dict) and "raised" in st["obs"]]
+            if bad:
+                ctx.fail("pager-raised", f"{m.name}: a generator operation raised {bad[0]['obs']}", payload)
+                continue
+            # -- oracle (no model): whatever the program, requests thread the tokens of the pages served, never go past the
+            #    first empty token, carry the caller's other fields and options; the caller's request object is left alone
+            live = live_pages(hist)
+            srv = [x for x in res_["server"] if x["path"].endswith("/" + s["name"])]
+            if len(srv) > len(live):
+                ctx.fail("call-count", f"{m.name}: {len(srv)} server calls, the history has {len(live)} pages up to the empty token", payload)
+            toks = []
+            for k, rec in enumerate(srv):
+                d = codec.decode(m.input.ident.proto, rec["requests"][0]) if rec["requests"] else {}
+                toks.append(d.get("page_token", ""))
+                if {kk: vv for kk, vv in d.items() if kk != "page_token"} != {kk: vv for kk, vv in reqd.items() if kk != "page_token"}:
+                    ctx.fail("request-fields-changed", f"{m.name}: request {k} carries {d}, caller gave {reqd}", payload)
+                for key_ in ("x-verif", "x-verif-b"):
+                    if [b for a, b in rec["metadata"] if a == key_] != [b for a, b in METADATA if a == key_]:
+                        ctx.fail("call-options-changed", f"{m.name}: request {k} lost or changed caller metadata {key_}", payload)
+                if not (0 < rec["time_remaining"] <= 7.5):
+                    ctx.fail("call-options-changed", f"{m.name}: request {k} deadline {rec['time_remaining']} (timeout=7)", payload)
+            want_toks = ([reqd.get("page_token", "")] + [p["token"] for p in live[:-1]])[:len(srv)]
+            if toks != want_toks:
+                ctx.fail("tokens", f"{m.name}: tokens sent {toks} expected {want_toks}", payload)
+            if res_.get("request_before") != res_.get("request_after"):
+                ctx.fail("caller-request-modified", f"{m.name}: the caller's request object changed while the pager was used: "
+                         f"{codec.decode(m.input.ident.proto, res_['request_before']['b64'])} -> {codec.decode(m.input.ident.proto, res_['request_after']['b64'])}", payload)
+            # the attribute read after k requests is that of page k (most recent page), at every point of the program
+            for st in steps:
+                if isinstance(st["obs"], dict) and "tok" in st["obs"] and 1 <= st["calls"] <= len(live):
+                    if st["obs"]["tok"] != live[st["calls"] - 1]["token"]:
+                        ctx.fail("attrs", f"{m.name}: pager.next_page_token={st['obs']['tok']!r} after {st['calls']} calls; the most recent page has "
+                                 f"{live[st['calls'] - 1]['token']!r}", payload)
+            # -- correspondence with the small-step model, op by op
+            ctx.traces += 1
+            for k, (st, ms) in enumerate(zip(steps, mo["steps"])):
+                got, exp = decode_obs(st["obs"], kind, codec, m), model_obs(ms["obs"], kind)
+                if got != exp or st["calls"] - 1 != ms["sent"]:
+                    ctx.disagree("T3:c07.program", f"{m.name} op {k} {prog[k]}: model {exp} after {ms['sent']} pager requests, "
+                                 f"impl {got} after {st['calls'] - 1}", payload)
+                    break
+            if mo["sent_tokens"] != toks[1:]:
+                ctx.disagree("T3:c07.program", f"{m.name}: model pager tokens {mo['sent_tokens']} vs impl {toks[1:]}", payload)
+        if not asy:
+            # streaming methods whose messages satisfy the rule: outside the property (hypothesis `unary`), model's prediction only
+            for (s, m, wm, c), res_ in zip(stream_calls, results[len(obj_calls):]):
+                payload = {"shape": s, "async": False, "stream": s.get("stream")}
+                ctx.traces += 1
+                ctx.count("streaming_paged", s.get("stream"))
+                if wm["pager_args"] == "name_error":
+                    got = res_.get("raised")
+                    exp = "NameError"
+                else:
+                    obs = (res_.get("steps") or [{}])[-1].get("obs")
+                    got = obs.get("raised") if isinstance(obs, dict) else (res_.get("raised") or obs)
+                    exp = "AttributeError"
+                if got != exp:
+                    ctx.disagree("T3:c07.pager_args", f"{m.name} ({s.get('stream')}): model predicts {exp} ({wm['pager_args']}), impl {got}: {str(res_)[:300]}", payload)
+
+
+def probe_extended_operation(ctx):
+    """the excluded point of Props.C07.wrap_agrees_with_client_output_partial on the real code: an extended-operation method whose
+    messages ALSO satisfy the pagination rule (outside the property: hypothesis, never reported)"""
+    from google.cloud import extended_operations_pb2 as ex
+    f = apigen.File("acme/lib/v1/lib.proto", PKG)
+    f.dep("google/cloud/extended_operations.proto")
+    op = f.msg("Operation")
+    st = op.nested_enum("Status", ["DONE"])
+    op.field("name", optional=True).options.Extensions[ex.operation_field] = ex.NAME
+    op.field("http_error_message", optional=True).options.Extensions[ex.operation_field] = ex.ERROR_MESSAGE
+    op.field("http_error_status_code", "int32", optional=True).options.Extensions[ex.operation_field] = ex.ERROR_CODE
+    op.field("status", "enum", type_name=st, optional=True).options.Extensions[ex.operation_field] = ex.STATUS
+    op.field("warnings", repeated=True); op.field("next_page_token")
+    g = f.msg("GetRegionOperationRequest")
+    g.field("operation", required=True).options.Extensions[ex.operation_response_field] = "name"
+    g.field("project", required=True); g.field("region", required=True)
+    ins = f.msg("InsertAddressRequest")
+    ins.field("project", required=True); ins.field("region"); ins.field("page_token"); ins.field("page_size", "int32")
+    em = f.msg("Empty2"); em.field("x")
+    ro = f.service("RegionOperations")
+    mm = ro.method("Get", g, op, http=("get", "/compute/v1/projects/{project}/regions/{region}/operations/{operation}"), sigs=["project,region,operation"])
+    mm.options.Extensions[ex.operation_polling_method] = True
+    ad = f.service("Addresses")
+    mm = ad.method("Insert", ins, op, http=("post", "/compute/v1/projects/{project}/regions/{region}/addresses"))
+    mm.options.Extensions[ex.operation_service] = "RegionOperations"
+    ad.method("Wipe", ins, ".google.protobuf.Empty", http=("post", "/compute/v1/projects/{project}/wipe"))
+    ad.method("Grow", ins, ".google.longrunning.Operation", http=("post", "/compute/v1/projects/{project}/grow"), lro=("Empty2", "Empty2"))
+    req = apigen.request([f], "transport=rest,autogen-snippets=false")
+    api, _ = genrun.build_api(req)
+    svc = api.services[f"{PKG}.Addresses"]
+    ms = list(svc.methods.values())
+    cl = ctx.driver.ask([{"op": "c07.classify", "input": msg_json(m.input), "output": msg_json(m.output)} for m in ms])
+    wr = ctx.driver.ask([dict(op="c07.wrap", paged=c.get("field") is not None, **kind_of(m)) for m, c in zip(ms, cl)])
+    for m, c, w in zip(ms, cl, wr):
+        ctx.traces += 1
+        ctx.count("method_kind", "+".join(k for k, v in kind_of(m).items() if v) or "unary")
+        impl = m.paged_result_field.name if m.paged_result_field else None
+        if c.get("field") != impl:
+            ctx.disagree("T2:c07.paged_result_field", f"{m.name}: model {c.get('field')} vs impl {impl}", {"probe": "extended-operation"})
+        for asy in (False, True):
+            if out_kind(m, asy) != w["client_output"]:
+                ctx.disagree("T2:c07.client_output", f"{m.name}: model {w['client_output']} vs impl {out_kind(m, asy)}", {"probe": "extended-operation"})
+    ctx.assume("methods that are unary and not extended operations: a streaming method whose messages satisfy the rule gets a pager built "
+               "around the stream object / an undefined name, an extended-operation method whose messages satisfy it makes the client "
+               "instantiate ExtendedOperation with a pager's arguments (Props.C07.streaming_paged_pager_unusable_counterexample, "
+               "extended_operation_paged_mismatch_counterexample; both run on the real code on every run, as predictions of the model)")
+    res, err = genrun.try_generate(req)
+    if err:
+        ctx.disagree("T3:c07.wrap", f"extended-operation probe: generation raised {err[0]}: {err[1]}", {"probe": "extended-operation"})
+        return
+    root = genrun.materialise(res)
+    try:
+        loc = rpc.py_locations(api, svc)
+        codec = rpc.Codec([f])
+        m = svc.methods["Insert"]
+        w = wr[ms.index(m)]
+        call = {"method": "insert", "mode": "request-instance", "py_request": rpc.py_type(m.input),
+                "request_b64": codec.encode_b64(m.input.ident.proto, {"project": "p", "region": "r"}), "consume": "value",
+                "script": [{"status": 200, "body": json.dumps({"name": "op1", "warnings": ["w1"]})}]}
+        out = libhost.run(root, [{"op": "rest_session", "client": loc["client"], "transport": loc["rest"], "calls": [call]}], timeout=120)
+        got = (out[0].get("calls") or [{}])[0]
+        mismatch = (w["wrap_sync"], w["client_output"]) == ("pager", "ext_operation")
+        ctx.traces += 1
+        if mismatch != (got.get("raised") == "TypeError"):
+            ctx.disagree("T3:c07.wrap", f"extended operation + pagination rule: model wrap={w['wrap_sync']} output={w['client_output']}, "
+                         f"the client call gave {str(got)[:300]}", {"probe": "extended-operation"})
+    finally:
+        genrun.cleanup(root)
+
+
+def enum_programs(n, maxit=2, maxgen=1):
+    """every well-formed program of exactly n ops over <= 2 item iterators and <= 1 `pages` generator"""
+    out = []
+
+    def rec(prog, nit, ngen):
+        if len(prog) == n:
+            out.append(prog); return
+        opts = []
+        if nit < maxit: opts.append((["iter"], 1, 0))
+        if ngen < maxgen: opts.append((["pages"], 0, 1))
+        if prog: opts.append((["attr"], 0, 0))
+        for i in range(nit): opts.append((["next", i], 0, 0))
+        for j in range(ngen): opts.append((["nextpage", j], 0, 0))
+        for o, a, b in opts:
+            rec(prog + [o], nit + a, ngen + b)
+    rec([], 0, 0)
+    return out
+
+
+def exhaustive_programs(ctx, n):
+    """EVERY small program (not a sample) on one fixed history with an empty middle page, sync and asyncio, op by op against the
+    small-step model and against the oracle of check_objects"""
+    s = {"name": "ListBooks0", "page_token": "str", "size": ("page_size", "int32"), "size2": None, "next_page_token": "str",
+         "repeated": ["message"], "extra_req": True, "lead": True}
+    hist = [{"ids": [1], "token": "a"}, {"ids": [], "token": "b"}, {"ids": [2, 3], "token": ""}, {"ids": [99], "token": ""}]
+    files = build_api([s])
+    req = apigen.request(files, "transport=grpc,autogen-snippets=false")
+    api, _ = genrun.build_api(req)
+    svc = api.services[f"{PKG}.Library"]
+    loc = rpc.py_locations(api, svc)
+    codec = rpc.Codec(files)
+    m = svc.methods[s["name"]]
+    res, err = genrun.try_generate(req)
+    if err:
+        ctx.fail("generation-crash:" + err[0], f"generator raised {err[0]}: {err[1]}", {"shape": s})
+        return
+    root = genrun.materialise(res)
+    try:
+        reqd = {"parent": "shelves/s1", "filter": "a=b"}
+        script = {f"/{PKG}.Library/{s['name']}": [{"replies": [codec.encode_b64(m.output.ident.proto, page_json(s, p, "results0", "message"))]} for p in hist]}
+        obj_calls = []
+        for prog in enum_programs(n):
+            c = {"method": "list_books0", "mode": "request-instance", "py_request": rpc.py_type(m.input),
+                 "request_b64": codec.encode_b64(m.input.ident.proto, reqd), "call_kwargs": {"timeout": 7.0, "metadata": METADATA},
+                 "script": script, "program": prog}
+            obj_calls.append(("program", s, m, "message", hist, reqd, prog, c))
+        ctx.count("exhaustive_programs", f"all {len(obj_calls)} well-formed programs of {n} ops (<= 2 item iterators, <= 1 pages generator)")
+        sessions = [{"op": "c07_session", "client": loc["async_client" if asy else "client"], "async": asy,
+                     "transport": loc["grpc_asyncio" if asy else "grpc"], "calls": [x[-1] for x in obj_calls]} for asy in (False, True)]
+        out = libhost.run(root, sessions, timeout=1500)
+        check_objects(ctx, codec, svc, obj_calls, [], out[:2], [s])
+    finally:
+        genrun.cleanup(root)
+
+
+def stream_shape(r, idx, kind=None):
+    s = gen_shape(r, idx, conforming=True)
+    s["stream"] = kind or r.pick(["ss", "cs", "bidi"])
+    s["sig"] = False
+    return s
+
+
 def run(ctx):
-    ctx.rule = ("request/response shapes around the AIP-4233 rule (present/absent/mistyped/repeated token and size fields, "
-                "1..3 repeated fields of message/scalar/map/enum/other-file kinds) x scripted histories (1..5 pages, sizes 0..3, "
-                "extra pages after the empty token) x {sync, asyncio}; distinct by (shape) and by (method, history, client kind); "
-                "non-trivial = every generated shape / every history")
+    ctx.rule = ("request/response shapes around the AIP-4233 rule (present/absent/mistyped/repeated/optional/oneof token and size fields, "
+                "all integer kinds, 1..3 repeated fields of message/nested/scalar/bytes/map/enum/other-file kinds, declaration order != "
+                "number order, response in another file) x scripted histories (1..5 pages, sizes 0..3, extra pages after the empty token) "
+                "x {sync, asyncio, REST} x call modes (instance, dict, flattened, none) x programs (second listing with the same objects; "
+                "generator programs on one pager: several `pages`/item generators advanced in any interleaving, attribute reads, "
+                "re-iteration; EVERY well-formed program of 4 (thorough: 7) ops on a fixed history; a transient error on a pager-issued fetch under the caller's retry); distinct by (shape), "
+                "(method, history, client kind) and (program, history, client kind); non-trivial = every generated shape / history / program")
     r = ctx.rng("shapes")
     # corpus first: the shapes behind the known finding and the two repaired defects
     corpus = [gen_shape(r, 0, conforming=True, first_kind="enum"), gen_shape(r, 1, force="mistyped_max_good_page"),
               gen_shape(r, 2, force="repeated_token"), gen_shape(r, 3, force="repeated_next"),
-              gen_shape(r, 4, conforming=True, first_kind="map"), gen_shape(r, 5, conforming=True, first_kind="other_file")]
-    run_api(ctx, r, corpus, "corpus")
-    for a in range(ctx.n(3, 40)):
+              gen_shape(r, 4, conforming=True, first_kind="map"), gen_shape(r, 5, conforming=True, first_kind="other_file"),
+              gen_shape(r, 6, force="page_size_wrapper"),
+              stream_shape(r, 7, "ss"), stream_shape(r, 8, "cs"), stream_shape(r, 9, "bidi")]
+    run_api(ctx, r, corpus, "corpus", programs=(LEAN_EXAMPLE_HISTORY, LEAN_EXAMPLE_PROGRAM))
+    probe_extended_operation(ctx)
+    exhaustive_programs(ctx, ctx.n(4, 7))
+    for a in range(ctx.n(3, 150)):
         shapes = [gen_shape(r, i) for i in range(8)]
         shapes[0] = gen_shape(r, 0, conforming=True)
+        if r.maybe(0.5):
+            shapes.append(stream_shape(r, 8))
         run_api(ctx, r, shapes, f"api{a}")
 
 
@@ -406,8 +856,8 @@ def replay(ctx, payload):
 
 
 CLAIM = dict(
-    text='Lean 4 proof, by induction over ALL server page histories, that the pager model yields the items of the pages up to and including the first empty token exactly once and in order, sends exactly the received tokens, leaves every other request field and call option unchanged, stops at the first empty token, and exposes the last page; and an iff-characterisation of paged_result_field (incl. the max_results precedence). Tie: T2 the real Method.paged_result_field vs the model on generated shapes; T3 the emitted sync and asyncio pagers against a loopback gRPC server with scripted histories vs the model; a model-independent oracle restating the property.',
+    text='Lean 4 proof, for EVERY program over the generators of one pager (any number of `pages` / item generators, any interleaving, any amount consumed), that the pager sends exactly the tokens of the pages it received, one request per page, on requests that otherwise equal the caller\'s, never fetches past the first empty token, exposes the most recent page, fetches only when a generator is advanced past what it holds, and that `list(pager)` consumed k items far is the first k items of the big-step loop (refinement); the client templates wrap a method in a pager exactly when the AIP-4233 rule holds and it is not an LRO. And: by induction over ALL server page histories, that the pager model yields the items of the pages up to and including the first empty token exactly once and in order, sends exactly the received tokens, leaves every other request field and call option unchanged, stops at the first empty token, and exposes the last page; and an iff-characterisation of paged_result_field (incl. the max_results precedence). Tie: T2 the real Method.paged_result_field vs the model on generated shapes; T3 the emitted sync and asyncio pagers against a loopback gRPC server with scripted histories vs the model, op-by-op for generator programs (observation and number of requests after every op); what every generated method returns (pager or response) vs the wrapping model; a model-independent oracle restating the property.',
     technique='Lean 4 theorems (induction on page histories; iff-characterisation of the classifier) + differential T2/T3 against the emitted pagers',
     design='7.7',
-    note="The pager's loop is modelled from pagers.py.j2 by hand; maps are compared per page as sets. A server that never returns an empty token is outside the model.",
+    note="The pager's loop is modelled from pagers.py.j2 by hand; maps are compared per page as sets. A server that never returns an empty token is outside the model. Object identity (the pager's private copy of the request) is not modelled: checked by the oracle (caller's request before/after, second listing). Streaming and extended-operation methods whose messages satisfy the rule are outside the property (model predictions only).",
 )
